@@ -187,16 +187,23 @@ func (store *Store) Restore() error {
 
 	r := resp.NewReader(store.rw)
 	database := 0
+	var offset int64 // end of the last complete record
 
 	for {
 		value, n, err := r.ReadValue()
 		if err != nil && err != io.EOF {
+			// The log ends in a torn or corrupt record. Cut it off, otherwise the next logged
+			// command would be appended to the garbage and be unreadable as well.
+			if terr := store.rw.Truncate(offset); terr != nil {
+				return terr
+			}
 			return err
 		}
 		if n == 0 {
 			// Break out when there are no more bytes to read.
 			break
 		}
+		offset += int64(n)
 
 		command, err := value.MarshalRESP()
 		if err != nil {
